@@ -272,6 +272,23 @@ class Fn:
                     b['succ'][dead] = None
                     if s is not None and b['id'] in self.preds[s]:
                         self.preds[s].remove(b['id'])
+        # code that cannot be reached from the entry (after a `for (;;)` without break, behind a
+        # constant-false condition) takes no part in any rule
+        if self.entry is not None and self.blocks:
+            seen = {self.entry}
+            st = [self.entry]
+            while st:
+                x = st.pop()
+                for s2 in self.blocks[x]['succ']:
+                    if s2 is not None and s2 not in seen:
+                        seen.add(s2)
+                        st.append(s2)
+            seen.add(self.exit)
+            for bid in list(self.blocks):
+                if bid not in seen:
+                    del self.blocks[bid]
+            for bid in list(self.preds):
+                self.preds[bid] = [p for p in self.preds[bid] if p in self.blocks]
 
     def __repr__(self):
         return '<Fn %s>' % self.name
@@ -724,12 +741,31 @@ def _join_form(fn, bid):
 
 
 def _edge_facts(fn, bid, idx):
-    """All facts established by taking successor #idx of block bid: [(key, pol, atom)]."""
+    """All facts established by taking successor #idx of block bid: [(key, pol, atom)].  A test of
+    a boolean local that is defined exactly once also yields the fact about its initialiser (so
+    `const bool bad = a != b; if (bad || c)` equals `if (a != b || c)`)."""
     key = (bid, idx)
     cache = fn.__dict__.setdefault('_efcache', {})
     if key in cache:
         return cache[key]
-    res = _edge_facts_uncached(fn, bid, idx)
+    res = list(_edge_facts_uncached(fn, bid, idx))
+    seen = {r[0] for r in res}
+    for k, pol, atom in list(res):
+        a = strip(atom)
+        for _ in range(3):
+            if isinstance(a, dict) and a.get('k') == 'var' and a.get('vk') == 'local':
+                init = fn.single_def(a['n'])
+                if init is None:
+                    break
+                a2, p2 = norm_cond(fn.prog, init)
+                pol = pol if p2 else (not pol)
+                k2 = dstr(a2)
+                if k2 not in seen and not (isinstance(strip(a2), dict) and strip(a2).get('k') in ('bool', 'int')):
+                    res.append((k2, pol, a2))
+                    seen.add(k2)
+                a = strip(a2)
+            else:
+                break
     cache[key] = res
     return res
 
